@@ -228,11 +228,34 @@ def rule_d(ctx, ix):
            where=f.where)
     g = c.resolve_func('_update_categories_and_codes')
     calls = [x for x in calls_in(g.node) if call_name(x) == 'unique']
-    pair = [st for st in walk_no_nested(g.node) if isinstance(st, ast.Assign) and isinstance(st.targets[0], ast.Tuple)
-            and [unparse(e) for e in st.targets[0].elts] == ['%s._categories' % g.self_name, '%s._codes' % g.self_name]
-            and isinstance(st.value, ast.Call) and call_name(st.value) == 'unique']
+    gs = g.self_name
+
+    def roles_after(stmts):
+        """name / field -> 'cat' | 'codes' after the straight-line statements: both halves of ONE unique() result."""
+        env = {}
+
+        def role(e):
+            if isinstance(e, (ast.Name, ast.Attribute)) and unparse(e) in env:
+                return env[unparse(e)]
+            if isinstance(e, ast.Call) and isinstance(e.func, ast.Attribute) and e.func.attr in ('astype', 'reshape', 'copy', 'view'):
+                return role(e.func.value)
+            return None
+        for st in stmts:
+            if not isinstance(st, ast.Assign) or len(st.targets) != 1:
+                continue
+            t = st.targets[0]
+            if isinstance(t, ast.Tuple) and len(t.elts) == 2 and isinstance(st.value, ast.Call) and call_name(st.value) == 'unique':
+                env[unparse(t.elts[0])], env[unparse(t.elts[1])] = 'cat', 'codes'
+            elif isinstance(t, (ast.Name, ast.Attribute)):
+                env[unparse(t)] = role(st.value)
+        return env
+    together = False
+    for blk in [g.node.body] + [b for n_ in ast.walk(g.node) if isinstance(n_, ast.If) for b in (n_.body, n_.orelse)]:
+        env = roles_after(blk)
+        if env.get('%s._categories' % gs) == 'cat' and env.get('%s._codes' % gs) == 'codes':
+            together = True
     ctx.ob(R, g.construct, 'categories and codes come from one unique() call (or codes are looked up in the given categories)',
-           len(calls) == 1 and len(pair) == 1 and any(call_name(x) == 'index_lookup' for x in calls_in(g.node)),
+           len(calls) == 1 and together and any(call_name(x) == 'index_lookup' for x in calls_in(g.node)),
            detail='categorical_ndarray no longer derives categories and codes together', where=g.where)
     # rank: the lookup helper handles one-dimensional input only (it builds a table with one row per element); a view of an
     # N-d categorical array is N-d
@@ -248,9 +271,16 @@ def rule_d(ctx, ix):
         flat = (isinstance(a0, ast.Call) and call_name(a0) in ('ravel', 'flatten')) or \
             (isinstance(a0, ast.Attribute) and a0.attr == 'flat') or \
             (isinstance(a0, ast.Call) and call_name(a0) == 'reshape' and unparse(a0.args[0]) in ('-1', '(-1,)'))
-        pm_g = parent_map(g.node)
-        par = pm_g.get(id(x))
-        reshaped = isinstance(par, ast.Attribute) and par.attr == 'reshape'
+        # the result is brought back to the shape of the view before it is stored (directly or through a local name)
+        from ..util import expand_locals
+        reshaped = False
+        for st in walk_no_nested(g.node):
+            if isinstance(st, ast.Assign) and unparse(st.targets[0]) == '%s._codes' % gs:
+                v = expand_locals(g.node, st.value)
+                for r_ in ast.walk(v):
+                    if isinstance(r_, ast.Call) and isinstance(r_.func, ast.Attribute) and r_.func.attr == 'reshape' and \
+                            isinstance(r_.func.value, ast.Call) and call_name(r_.func.value) == 'index_lookup':
+                        reshaped = True
         if not one_d:
             ctx.ob(R, g.construct + ' rank', 'the lookup helper accepts arrays of any rank', True, nontrivial=False)
             continue
